@@ -146,12 +146,31 @@ P["C09"] = dict(
     obligations=ob("JSight.Props.C09",
         ("Props.C09.C09_never_rejects_legal", "every inhabited type graph passes the recursion check"),
         ("Props.C09.C09_full_false", "the converse is false of the code: required 2-cycle accepted (K-C09-cycle)"),
-        ("Props.C09.C09_resolved_completely", "type expansion = reachability")),
-    runs=[{"cmd": ["c09-typegraph"]}, {"cmd": ["c09-model"]}],
-    partial="exactness of the recursion check is refuted (known finding K-C09-cycle); missing-type errors, UsedUserTypes and termination are explored on the real code",
-    level_text="Proof (partial): the recursion DFS as coded never rejects a type graph whose root is inhabited (theorem, all graphs); the converse is refuted by a proved counterexample that is a known finding of the code; the validator's type expansion reaches exactly the reachable alternatives. Search: generated type graphs with every reference form: missing types (1302), UsedUserTypes, verdict vs least-fixpoint inhabitation and vs the DFS-as-coded, termination of Check/Validate/Example in child processes.",
+        ("Props.C09.C09_resolved_completely", "type expansion = reachability"),
+        ("Props.C09.C09_links_names_missing", "a type the link check reports missing is referenced (by the root or a type in the table) and is not in the table"),
+        ("Props.C09.C09_links_ok_resolved", "if the link check passes every referenced type was added"),
+        ("Props.C09.C09_links_iff_partial", "link check ok <=> every referenced type was added, when no other pipeline error comes first"),
+        ("Props.C09.C09_links_fails_iff_partial", "the same stated for failure: some missing name is reported <=> not all resolved"),
+        ("Props.C09.C09_links_iff_full_false", "without that hypothesis the statement is false: an allOf recursion (703) in front of a missing type"),
+        ("Props.C09.C09_links_own_eq_flat", "types added to other types (ownership chains of any depth): the link check = the flat check of the hoisted table"),
+        ("Props.C09.C09_links_own_hoisted_iff", "the hoisted table holds exactly the type objects that reach the root through a chain of AddType calls"),
+        ("Props.C09.C09_links_own_sound", "with ownership: a reported missing type is referenced and unreachable"),
+        ("Props.C09.C09_links_own_complete", "with ownership: check ok => every referenced type is reachable"),
+        ("Props.C09.C09_links_own_iff_partial", "with ownership: exactness under the same hypothesis"),
+        ("Props.C09.C09_links_own_pinned_unnoticed", "regression witness of F-27: the old order (allOf expansion before hoisting) missed a missing parent"),
+        ("Props.C09.C09_links_own_fixed", "the same inputs on the current order: the missing parent is named / the nested parent is found"),
+        ("Props.C09.C09_used_nodup", "UsedUserTypes lists each name once"),
+        ("Props.C09.C09_used_mem_iff", "UsedUserTypes lists exactly the names the schema text references (eight reference forms)"),
+        ("Props.C09.C09_used_order", "in order of first occurrence"),
+        ("Props.C09.C09_links_never_out_of_fuel", "termination: with |types|+1 fuel the link check never runs out"),
+        ("Props.C09.C09_links_fuel_stable", "more fuel gives the same verdict"),
+        ("Props.C09.C09_validate_fuel_stable", "termination of the validator's type expansion on every graph"),
+        ("Props.C09.C09_example_fuel_stable", "termination of the example builder on every graph")),
+    runs=[{"cmd": ["c09-typegraph"]}, {"cmd": ["c09-model"]}, {"cmd": ["c09-links"]}],
+    partial="exactness of the recursion check is refuted (known finding K-C09-cycle); the link check (also with types added to other types), UsedUserTypes and termination (fuel sufficiency of every fuelled model) are theorems on models tied by c09-links; that the NAMED missing type is the first one in traversal order is compared, not proved",
+    level_text="Proof (partial): the recursion DFS as coded never rejects a type graph whose root is inhabited (theorem, all graphs); the converse is refuted by a proved counterexample that is a known finding of the code; the validator's type expansion reaches exactly the reachable alternatives; the link check as coded (root and every added type, all eight reference forms, allOf expansion, types added to other types hoisted first) passes iff every referenced type was added and a reported name is referenced and absent; UsedUserTypes = the names the text references, each once, in order of first occurrence; every fuelled model (link check, validator type expansion, example builder) provably never runs out of fuel on any graph (termination). Tie: c09-links compares the real Check verdict incl. the named type and UsedUserTypes at eight points of a call history with the Lean model over generated graphs with ownership chains. Search: generated type graphs with every reference form: missing types (1302), UsedUserTypes, verdict vs least-fixpoint inhabitation and vs the DFS-as-coded, termination of Check/Validate/Example in child processes.",
     level_note="Trusted: Lean kernel; graph model validated by the exploration (as-coded reference agrees with real Check); K-C09-cycle, K-C09-orrule1303 known findings by class.",
-    technique="Lean 4 theorem (inhabited => accepted) + refutation witness + exploration of the real Check")
+    technique="Lean 4 theorems (inhabited => accepted, link check <=> resolved, UsedUserTypes exact, fuel sufficiency) + refutation witnesses + differential correspondence with the real Check / UsedUserTypes")
 
 P["C10"] = dict(
     lean_targets=["JSight.Props.C10"],
